@@ -416,6 +416,14 @@ def cluster_cases():
         for ns in ([], ["--enable-cxx-namespaces"]):
             cases.append(ann + (["--default-enum-style", st] + ns,))
     cases.append(ann + (["--enable-cxx-namespaces", "--no-prepend-enum-name", "--translate-enum-integer-types"],))
+    # `replaces=` annotations between differently-parented types (nested in a class, in namespaces, at top level)
+    repl = ("annotated-replaces", "hpp", "struct Outer { struct Inner { int a; }; Inner i; struct In2 { char c; }; In2 j; };\n"
+            "/** <div rustbindgen replaces=\"Outer_Inner\"></div> */ struct Repl { long b; };\n"
+            "namespace n1 { struct Target { int t; }; namespace n2 { /** <div rustbindgen replaces=\"n1::Target\"></div> */ struct NsRepl { double d; }; } struct User { Target u; }; }\n"
+            "struct Top { int x; }; struct Holder { /** <div rustbindgen replaces=\"Top\"></div> */ struct NestedRepl { char c[4]; }; Top t; };\n"
+            "/** <div rustbindgen replaces=\"Outer_In2\"></div> */ typedef int In2Repl;\n")
+    for extra in ([], ["--enable-cxx-namespaces"], ["--no-layout-tests", "--with-derive-default"], ["--enable-cxx-namespaces", "--opaque-type", "Outer"], ["--blocklist-type", "Repl"]):
+        cases.append(repl + (extra,))
     oddc = ("odd-fields-c", "h", "struct fa { int n; int data[]; };\nstruct fb { char c; struct fa in; };\nunion fu { struct fa f; char z[]; int i; };\n"
             "struct fz { int z[0]; int n; long t[]; };\nstruct fe { };\nstruct ff { struct fe e[0]; char d[]; };\n")
     for extra in ([], ["--flexarray-dst"], ["--flexarray-dst", "--rust-target", "nightly"], ["--explicit-padding", "--flexarray-dst"], ["--impl-debug", "--flexarray-dst"],
